@@ -92,6 +92,8 @@ def shot(rng, *, flat=False, twist=True, custom=0.15, look=True, cant=True, vacu
     s["cant_deg"] = rng.choice([0.0, 0.0, r(rng, -90, 90, 2)]) if cant else 0.0
     s["atmo"] = atmo(rng, vacuum_ok)
     s["winds"] = winds(rng, wind_n, wind_max, range_ft)
+    if rng.random() < 0.2:
+        s["_restate"] = True     # build.shot reaches this shot by modifying other objects (see build._restated_shot)
     return s
 
 
